@@ -408,6 +408,7 @@ func (p *Protocol) enqueueMessage(msg Message, deliveryChan chan error) error {
 	p.verifEv("Enq", int(msg.Type()), msgLen, 0, 0, "", "", data)
 	select {
 	case p.sendQueueChan <- outbound:
+		p.verifEv("Enqd", int(msg.Type()), msgLen, 0, 0, "", "", nil)
 		return nil
 	case <-p.stopChan:
 	case <-p.doneChan:
